@@ -2,9 +2,12 @@ package simrt
 
 import (
 	"errors"
+	"io"
 	"io/fs"
 	"os"
 	"sort"
+	"strconv"
+	"strings"
 	"syscall"
 	"time"
 )
@@ -18,6 +21,7 @@ type FS struct {
 	// fault configuration
 	Chunk     int           // bytes per write step (0: whole file)
 	ReadDelay time.Duration // simulated time a whole-file read takes (slow disk)
+	tempSeq   int
 	ReadErr   map[string]error
 	WriteErr  map[string]error // returned before anything is written
 	NoSpaceAt map[string]int   // ENOSPC after this many bytes
@@ -195,6 +199,9 @@ func OpenFile(path string, flag int, perm os.FileMode) (*File, error) {
 		return nil, &fs.PathError{Op: "open", Path: path, Err: e}
 	}
 	n, ok := f.files[path]
+	if ok && flag&os.O_CREATE != 0 && flag&os.O_EXCL != 0 {
+		return nil, &fs.PathError{Op: "open", Path: path, Err: syscall.EEXIST}
+	}
 	if !ok {
 		if flag&os.O_CREATE == 0 {
 			return nil, notExist("open", path)
@@ -251,12 +258,224 @@ func (fl *File) Sync() error {
 // WriteString mirrors os.File.
 func (fl *File) WriteString(s string) (int, error) { return fl.Write([]byte(s)) }
 
-// Read is not supported on simulated files beyond whole-file reads.
+// Read reads from the handle's offset.
 func (fl *File) Read(b []byte) (int, error) {
 	if fl.real != nil {
 		return fl.real.Read(b)
 	}
-	return 0, errors.New("simrt: File.Read not simulated")
+	n, ok := fl.f.files[fl.path]
+	if !ok {
+		return 0, errors.New("file removed")
+	}
+	Yield(siteFS)
+	if e, ok := fl.f.ReadErr[fl.path]; ok {
+		return 0, &fs.PathError{Op: "read", Path: fl.path, Err: e}
+	}
+	if fl.off >= len(n.data) {
+		return 0, io.EOF
+	}
+	k := copy(b, n.data[fl.off:])
+	fl.off += k
+	return k, nil
+}
+
+// ReadAt / WriteAt / Seek / Truncate / Stat / Chmod mirror os.File.
+func (fl *File) ReadAt(b []byte, off int64) (int, error) {
+	if fl.real != nil {
+		return fl.real.ReadAt(b, off)
+	}
+	n, ok := fl.f.files[fl.path]
+	if !ok {
+		return 0, errors.New("file removed")
+	}
+	Yield(siteFS)
+	if off >= int64(len(n.data)) {
+		return 0, io.EOF
+	}
+	k := copy(b, n.data[off:])
+	if k < len(b) {
+		return k, io.EOF
+	}
+	return k, nil
+}
+
+func (fl *File) WriteAt(b []byte, off int64) (int, error) {
+	if fl.real != nil {
+		return fl.real.WriteAt(b, off)
+	}
+	n, ok := fl.f.files[fl.path]
+	if !ok {
+		return 0, errors.New("file removed")
+	}
+	Yield(siteFS)
+	for int64(len(n.data)) < off {
+		n.data = append(n.data, 0)
+	}
+	k := copy(n.data[off:], b)
+	n.data = append(n.data, b[k:]...)
+	return len(b), nil
+}
+
+func (fl *File) Seek(offset int64, whence int) (int64, error) {
+	if fl.real != nil {
+		return fl.real.Seek(offset, whence)
+	}
+	n, ok := fl.f.files[fl.path]
+	if !ok {
+		return 0, errors.New("file removed")
+	}
+	switch whence {
+	case io.SeekStart:
+	case io.SeekCurrent:
+		offset += int64(fl.off)
+	case io.SeekEnd:
+		offset += int64(len(n.data))
+	}
+	if offset < 0 {
+		return 0, &fs.PathError{Op: "seek", Path: fl.path, Err: syscall.EINVAL}
+	}
+	fl.off = int(offset)
+	return offset, nil
+}
+
+func (fl *File) Truncate(size int64) error {
+	if fl.real != nil {
+		return fl.real.Truncate(size)
+	}
+	return truncateNode(fl.f, fl.path, size)
+}
+
+func (fl *File) Stat() (os.FileInfo, error) {
+	if fl.real != nil {
+		return fl.real.Stat()
+	}
+	return Stat(fl.path)
+}
+
+func (fl *File) Chmod(os.FileMode) error { return nil }
+
+func truncateNode(f *FS, path string, size int64) error {
+	Yield(siteFS)
+	n, ok := f.files[path]
+	if !ok {
+		return notExist("truncate", path)
+	}
+	for int64(len(n.data)) < size {
+		n.data = append(n.data, 0)
+	}
+	n.data = n.data[:size]
+	return nil
+}
+
+// Truncate replaces os.Truncate.
+func Truncate(path string, size int64) error {
+	f := curFS()
+	if f == nil {
+		return os.Truncate(path, size)
+	}
+	return truncateNode(f, path, size)
+}
+
+// Rename replaces os.Rename: the file moves in one step (replacing the target).
+func Rename(oldpath, newpath string) error {
+	f := curFS()
+	if f == nil {
+		return os.Rename(oldpath, newpath)
+	}
+	Yield(siteFS)
+	n, ok := f.files[oldpath]
+	if !ok {
+		return &os.LinkError{Op: "rename", Old: oldpath, New: newpath, Err: syscall.ENOENT}
+	}
+	if e, ok := f.WriteErr[newpath]; ok {
+		return &os.LinkError{Op: "rename", Old: oldpath, New: newpath, Err: e}
+	}
+	f.files[newpath] = n
+	delete(f.files, oldpath)
+	Yield(siteFS)
+	return nil
+}
+
+// Remove / RemoveAll replace os.Remove / os.RemoveAll.
+func Remove(path string) error {
+	f := curFS()
+	if f == nil {
+		return os.Remove(path)
+	}
+	Yield(siteFS)
+	if _, ok := f.files[path]; !ok {
+		return notExist("remove", path)
+	}
+	delete(f.files, path)
+	return nil
+}
+
+func RemoveAll(path string) error {
+	f := curFS()
+	if f == nil {
+		return os.RemoveAll(path)
+	}
+	Yield(siteFS)
+	for p := range f.files {
+		if p == path || strings.HasPrefix(p, strings.TrimSuffix(path, "/")+"/") {
+			delete(f.files, p)
+		}
+	}
+	return nil
+}
+
+// MkdirAll / Mkdir replace os.MkdirAll / os.Mkdir: the simulated disk has no directories to create.
+func MkdirAll(path string, perm os.FileMode) error {
+	if curFS() == nil {
+		return os.MkdirAll(path, perm)
+	}
+	return nil
+}
+
+func Mkdir(path string, perm os.FileMode) error {
+	if curFS() == nil {
+		return os.Mkdir(path, perm)
+	}
+	return nil
+}
+
+// Chmod replaces os.Chmod.
+func Chmod(path string, mode os.FileMode) error {
+	f := curFS()
+	if f == nil {
+		return os.Chmod(path, mode)
+	}
+	if _, ok := f.files[path]; !ok {
+		return notExist("chmod", path)
+	}
+	return nil
+}
+
+// CreateTemp replaces os.CreateTemp / ioutil.TempFile: names are numbered, not random.
+func CreateTemp(dir, pattern string) (*File, error) {
+	f := curFS()
+	if f == nil {
+		r, err := os.CreateTemp(dir, pattern)
+		if err != nil {
+			return nil, err
+		}
+		return &File{real: r, path: r.Name()}, nil
+	}
+	if dir == "" {
+		dir = "/tmp"
+	}
+	for {
+		f.tempSeq++
+		num := strconv.Itoa(f.tempSeq)
+		name := pattern + num
+		if i := strings.LastIndex(pattern, "*"); i >= 0 {
+			name = pattern[:i] + num + pattern[i+1:]
+		}
+		p := strings.TrimSuffix(dir, "/") + "/" + name
+		if _, exists := f.files[p]; !exists {
+			return OpenFile(p, os.O_RDWR|os.O_CREATE|os.O_EXCL, 0600)
+		}
+	}
 }
 
 // Close mirrors os.File.
